@@ -18,6 +18,12 @@ import (
 const cssMinT = load.Mod + "/css.cssMinifier"
 
 func init() {
+	mutant(&Mutant{Name: "c09-decoded-dollar-unescaped-in-template", Property: "C09", File: "js/util.go",
+		Old: "} else if num < 256 && quote == byte(num) || quote == '`' && (num == '$' || num == '{') {", New: "} else if num < 256 && quote == byte(num) {",
+		Rule: "R09.24", Construct: "covers `$` and `{` for template literals"})
+	mutant(&Mutant{Name: "c09-nul-escape-shortened-in-front-of-a-digit", Property: "C09", File: "js/util.go",
+		Old: "\t\t\t\tif num == 0 && i+n < len(b)-1 && '0' <= b[i+n] && b[i+n] <= '9' {\n\t\t\t\t\t// keep \\00 or \\000, \\0 would take the digit that follows for a part of the escape\n\t\t\t\t\ti += n - 1\n\t\t\t\t\tcontinue\n\t\t\t\t}\n", New: "",
+		Rule: "R09.25", Construct: "only where no digit follows"})
 	mutant(&Mutant{Name: "c04-unknown-function-arguments-at-top-level", Property: "C04", File: "css/css.go",
 		Old: "values[i].Args = c.minifyTokens(prop, unknownFunction, values[i].Args)", New: "values[i].Args = c.minifyTokens(prop, fun, values[i].Args)",
 		Rule: "R04.25", Construct: "is marked as inside a function"})
@@ -580,6 +586,8 @@ func runC09own(c *Ctx) {
 	c.r0921(pk)
 	c.r0922(pk)
 	c.r0923(pk)
+	c.r0924(pk)
+	c.r0925(pk)
 }
 
 // R09.4: `1.a` is not a member access — a property written after a number needs the integer test.
@@ -1835,7 +1843,7 @@ func (c *Ctx) r0424(pk *packages.Package) {
 			return true
 		}
 		n++
-		construct := fmt.Sprintf("css.cssMinifier.minifyProperty/%s/initial written#%d as the whole value", c.caseLabel(as), n)
+		construct := fmt.Sprintf("css.cssMinifier.minifyProperty/%s/initial written to %s as the whole value", c.caseLabel(as), nospace(str(as.Lhs[0])))
 		if v, isK := intConst(info, ie.Index); isK && v == 0 {
 			c.R.OK(rule, construct, c.pos(as), "element 0")
 		} else {
